@@ -109,7 +109,7 @@ theorem union_self {a : List Nat} (h : SInc a) : union a a = a :=
 theorem take_mergeKeys_take (a c : List Nat) (n j : Nat) (h : n ≤ j) :
     (mergeKeys (a.take j) c).take n = (mergeKeys a c).take n := by
   fun_induction mergeKeys a c generalizing n j with
-  | case1 o => simp
+  | case1 o => simp [mergeKeys]
   | case2 x s =>
     simp only [mergeKeys_nil_right]
     rw [List.take_take]; congr 1; omega
